@@ -14,8 +14,8 @@
    way.  Not proved: a seek-by-skipping that meets an item that does not parse (only: it fails and
    exhausts the reader, C09_error_latches). *)
 From RsdnsModel Require Import Base Cursor Names Labels Header Tracker RData Reader.
-From RsdnsModel.Spec Require Import WireName LinearPass.
-From RsdnsModel.Proofs Require Import Latch ReaderTotal LatchFull TrackerRefine SpecExec ParseSpec ReaderRefine.
+From RsdnsModel.Spec Require Import WireName LinearPass RDataWire.
+From RsdnsModel.Proofs Require Import Latch ReaderTotal LatchFull TrackerRefine SpecExec ParseSpec ReaderRefine MessageRT.
 Open Scope N_scope.
 
 (* An exhausted reader (after the first decode error, or after exhaustion) stays exhausted: every
@@ -292,3 +292,19 @@ Theorem C09_linear_pass_parses : forall msg l, linear_of msg = Some l ->
     (lenN (l_qs l) = l_nq l -> lenN rs < nrec l ->
      match record_at msg e2 with Some it => a_data_ok it = false | None => True end).
 Proof. exact linear_parsed. Qed.
+
+(* the hypotheses of the composition are satisfiable: the 35-octet response of C02_whole_message_example
+   (one question, one answer with a compressed owner) is parsed with complete lists, the reader behind
+   header() represents (0, 0), and "question, record, seek(Answer), record" is allowed, reads parsed
+   items only, and is therefore answered as prescribed *)
+Example C09_example_run :
+  exists qs rs e1 e2 h c,
+    parsed example_msg 1 1 0 0 qs rs e1 e2 /\ lenN qs = 1 /\ lenN rs = 1 /\
+    read_header example_msg (c_new example_msg) = (c, Ok h) /\
+    let r0 := mkReader c (tr_set tr_default h) false in
+    RState example_msg 1 1 0 0 qs rs e2 r0 0 0 /\
+    allowed 1 1 0 0 [TQuestion; TRecord; TSeek 0; TRecord] 0 0 = Some (2, 2) /\
+    within 1 1 0 0 qs rs [TQuestion; TRecord; TSeek 0; TRecord] 0 0 /\
+    exists r', RState example_msg 1 1 0 0 qs rs e2 r' 2 2 /\
+               prescribed example_msg 1 1 0 0 qs rs r' [TQuestion; TRecord; TSeek 0; TRecord] r0 0 0.
+Proof. exact example_run. Qed.
